@@ -66,6 +66,25 @@ CHECKS.update({
               "One corner of the 'nothing new after a timeout loss' clause fails on the pinned code and is a listed known finding."),
         design_ref="§4 C04, §3.2", note=CORE_NOTE,
         technique="TLA+ invariants + TLC incl. adversarial Forge action; monitors over observed state via TLC trace validation"),
+    "C07": dict(
+        category="model_checking",
+        text=("Fec.tla follows fecEncoder.encode / fecDecoder.decode branch by branch (sequence ids in a word of W values, paws, shard sets, "
+              "discard horizon, skipped parity); Reed-Solomon is abstracted by its MDS property with ghost packet identities. TLC checks "
+              "OnlyOriginals / Recoverable / Bounded for matching ratios d+p<=5 over every arrival subset, order and duplicate within the "
+              "budgets with the wrap point inside the run. TLC behaviours are replayed on the real encoder/decoder (decoder state and every "
+              "reconstructed packet compared per step); seeded runs up to 128/127 incl. positions around the real wrap value are "
+              "validated by TLC (FecObs monitors decide with byte-exact identification of reconstructed packets; FecTrace reports drift)."),
+        design_ref="§4 C07, §3.3", note="Trusted: TLC, the harness' byte comparison against the packets it generated, the verif-tag codec accessors. Exhaustive only inside the small TLC instances.",
+        technique="TLA+ spec of the FEC framing + TLC; behaviour replay; TLC trace validation with ghost identities"),
+    "C16": dict(
+        category="model_checking",
+        text=("FecNet.tla with differing encoder/decoder ratios and the auto-tuner (autotune.go FindPeriod transcribed): TLC checks Converges "
+              "(after an uninterrupted run of RingN+2(d+p) packets, ring scaled to 10, after every fault pattern in the budget, wrap inside "
+              "the run) and Stable (matching ratios never retune under any fault pattern). On the code every pair with d+p<=6 plus sampled "
+              "pairs to 255, at several positions incl. just below the real wrap value: faulty prefix, exactly 258+2(d+p) in-order packets, "
+              "then the adopted ratio and loss recovery are judged by the C16/C07 monitors via TLC."),
+        design_ref="§4 C16, §3.3", note="Trusted as C07. Session-level delivery under mismatch is exercised by the session checks.",
+        technique="TLA+ spec incl. auto-tuner + TLC; exhaustive small-pair drives validated by TLC monitors"),
     "C12": dict(
         category="model_checking",
         text=("Design level: KcpNet is model-checked in a scaled sequence/clock space (Mod=4096) with offsets that make sn and clock wrap "
